@@ -311,7 +311,7 @@ KIND = {"result": "RResult", "none": "RNoneK", "promise": "RPromise", "raised": 
 class C15(Prop):
     id = "C15"
     corr_module = "Corr.C15Corr"
-    quick_n = 2400
+    quick_n = 3600
     thorough_n = 40000
     shard_size = 300
     rule = ("opts cases: every option independently in one of {absent, kwarg, kwarg None, configured, "
@@ -376,7 +376,7 @@ class C15(Prop):
                     out.append(["prefix", rng.choice(["p1", "source x", "workon e", ""]), body])
             elif depth > 0 and k < 0.55:
                 out.append(["try", self.gen_prog(rng, depth - 1)])
-            elif k < 0.65:
+            elif k < 0.61:
                 out.append(["raise"])
             elif k < 0.85:
                 out.append(["run", rng.choice(["ls", "make x", "a b"])])
